@@ -199,24 +199,30 @@ def one_case(ctx, vals, kind, strikes, notional, df, controls, spot_stats, tag, 
                      cls=dict(cls, singular_sigma_x=bool(cond > 1e12 and k >= 2)))   # (class kept for the record: fixed in /repo)
             return
         if k >= 2 and n > k + 1:
-            # k controls: theorem cv_var_le_raw_normal_equations needs coefficients solving the normal equations; the pseudo-inverse
-            # of the sample covariance matrix provides them: check the residual and that the stored rows use exactly those
-            # coefficients — one coefficient vector per payoff component, from the component's own columns
+            # k controls: theorem cv_var_le_raw_normal_equations needs coefficients solving the normal equations.  Judge what the
+            # implementation actually did, without assuming how it computes b: the fitted adjustment f = Y - adjusted must be a
+            # combination A b of the centred-by-price controls A = X - price_X, and it must satisfy the normal equations
+            # (1/n) Xc^T (f - mean f) = Sigma_XY  (they depend on b only through A b, so collinear controls are no obstacle)
             cov = np.cov(X, y, bias=True)
             sxx, sxy = cov[:-1, :-1], cov[:-1, -1]
             if float(np.amin(np.abs(sxx))) >= 1e-12:
-                b_ref = np.linalg.pinv(sxx, hermitian=True) @ sxy
-                scale_b = float(np.max(np.abs(sxy))) + 1e-300
-                if float(np.max(np.abs(sxx @ b_ref - sxy))) > 1e-8 * scale_b:
-                    ctx.fail("oracle", "c07.cv_normal_equations", desc, {"what": "the regression coefficients do not solve the normal equations",
-                                                                        "component": j, "residual": (sxx @ b_ref - sxy).tolist()}, cls=cls)
+                A = X.T - pr                                                   # (n, k)
+                f = y - adj_rows[:, j]
+                b_impl, *_ = np.linalg.lstsq(A, f, rcond=None)
+                sc = float(np.max(np.abs(y))) + float(np.max(np.abs(f))) + 1e-300
+                if float(np.max(np.abs(A @ b_impl - f))) > 1e-7 * sc:
+                    ctx.fail("oracle", "c07.cv_rows", desc, {"what": "adjusted rows are not Y - b*(X - price_X) for any coefficient vector b of the "
+                                                                      "component", "component": j, "adjusted": adj_rows[:4, j].tolist(),
+                                                            "distance_to_the_span": float(np.max(np.abs(A @ b_impl - f)))}, cls=cls)
                     return
-                exp_adj = y - (X.T - pr) @ b_ref
-                sc = float(np.max(np.abs(y))) + float(np.sum(np.abs(b_ref)) * np.max(np.abs(X.T - pr))) + 1e-300
-                if float(np.max(np.abs(adj_rows[:, j] - exp_adj))) > 1e-7 * sc:
-                    ctx.fail("oracle", "c07.cv_rows", desc, {"what": "adjusted rows are not Y - b*(X - price_X) with the least-squares coefficients "
-                                                                      "of the component", "component": j, "adjusted": adj_rows[:4, j].tolist(),
-                                                            "expected": exp_adj[:4].tolist()}, cls=cls)
+                Xc = X.T - np.mean(X.T, axis=0)
+                resid = Xc.T @ (f - np.mean(f)) / n - sxy
+                scale_b = float(np.max(np.abs(sxy))) + 1e-300
+                if float(np.max(np.abs(resid))) > 1e-8 * scale_b:
+                    ctx.fail("oracle", "c07.cv_normal_equations", desc, {"what": "the regression coefficients used by the engine do not solve the normal equations",
+                                                                        "component": j, "residual": resid.tolist(), "cond_sigma_x": cond,
+                                                                        "eigenvalues": np.linalg.eigvalsh(sxx).tolist()},
+                             cls=dict(cls, near_singular_sigma_x=bool(cond > 1e13)))
                     return
                 if cond > 1e12:
                     ctx.branches["c07.cv:pinv_singular_sigma_x"] += 1
